@@ -184,17 +184,20 @@ func CompareDigests(a, b []string, pa, pb [][]string) (class, detail string) {
 		}
 		if a[i] != b[i] {
 			var diff []string
-			orderOnly, gasOnly := true, true
+			orderOnly := true
+			preAnte, otherTx := 0, 0
 			for j := range pa[i] {
 				if j < len(pb[i]) && pa[i][j] != pb[i][j] {
-					name := strings.SplitN(pa[i][j], "=", 2)[0]
+					name := pa[i][j][:strings.LastIndex(pa[i][j], "=")]
 					na := pa[i][j][strings.LastIndex(pa[i][j], "/"):]
 					nb := pb[i][j][strings.LastIndex(pb[i][j], "/"):]
 					if na != nb {
 						orderOnly = false
 						diff = append(diff, name)
-						if !preAnteGasOnly(pa[i][j], pb[i][j]) {
-							gasOnly = false
+						if preAnteGasOnly(pa[i][j], pb[i][j]) {
+							preAnte++
+						} else if strings.HasPrefix(name, "tx") {
+							otherTx++
 						}
 					} else {
 						diff = append(diff, name+"(attribute order)")
@@ -205,8 +208,16 @@ func CompareDigests(a, b []string, pa, pb [][]string) (class, detail string) {
 			if orderOnly {
 				return "event_attribute_order", fmt.Sprintf("block index %d: %v", i, diff)
 			}
-			if gasOnly {
-				return "pre_ante_failed_tx_gas", fmt.Sprintf("block index %d: gas_used of failed transactions differs: %v", i, diff)
+			// the gas of a pre-ante-failed transaction feeds the block gas that the fee market stores,
+			// so "end" and "apphash" differ as a consequence
+			consequence := preAnte > 0
+			for _, d := range diff {
+				if !strings.HasPrefix(d, "tx") && d != "end" && d != "apphash" && !strings.HasSuffix(d, "(attribute order)") {
+					consequence = false
+				}
+			}
+			if consequence && otherTx == 0 {
+				return "pre_ante_failed_tx_gas", fmt.Sprintf("block index %d: gas_used of transactions rejected before the ante handler differs (and with it block gas / app hash): %v", i, diff)
 			}
 			return "result_or_state", fmt.Sprintf("block index %d differs in %v", i, diff)
 		}
@@ -263,7 +274,7 @@ func ReplicaMain(path string) {
 // preAnteGasOnly: two digests of the same transaction that differ only in the reported gas of a
 // failed transaction (names look like tx3(code=5,gas=147046)).
 func preAnteGasOnly(a, b string) bool {
-	na, nb := strings.SplitN(a, "=", 2)[0], strings.SplitN(b, "=", 2)[0]
+	na, nb := a[:strings.LastIndex(a, "=")], b[:strings.LastIndex(b, "=")]
 	if !strings.HasPrefix(na, "tx") || !strings.HasPrefix(nb, "tx") {
 		return false
 	}
